@@ -279,9 +279,7 @@ func (c *Conn) OpenUpstream(ctx context.Context, sessionID string, opts ...Upstr
 
 	var resp *message.UpstreamOpenResponse
 	err := c.send(ctx, func(ctx context.Context) error {
-		c.wireConnMu.Lock()
-		defer c.wireConnMu.Unlock()
-		r, err := c.wireConn.SendUpstreamOpenRequest(ctx, &message.UpstreamOpenRequest{
+		r, err := c.currentWireConn().SendUpstreamOpenRequest(ctx, &message.UpstreamOpenRequest{
 			SessionID:      upconf.SessionID,
 			AckInterval:    *upconf.AckInterval,
 			ExpiryInterval: upconf.ExpiryInterval,
@@ -582,9 +580,7 @@ func (c *Conn) SendMetadata(ctx context.Context, meta message.SendableMetadata, 
 				Persist: opt.Persist,
 			},
 		}
-		c.wireConnMu.Lock()
-		defer c.wireConnMu.Unlock()
-		resp, err := c.wireConn.SendUpstreamMetadata(ctx, upmeta)
+		resp, err := c.currentWireConn().SendUpstreamMetadata(ctx, upmeta)
 		if err != nil {
 			return err
 		}
